@@ -1038,6 +1038,42 @@ func c21AttrEq(key, val string) *c21AC {
 	return &c21AC{K: "map", Map: []c21ACEntry{{key, c21AC{K: "re", Pat: c21Lit(val)}}}}
 }
 
+type c21Example struct {
+	Name string
+	Case c21Case
+	Conn bool
+}
+
+// c21Examples is filled by c21SelfTest (after the reference passed them).
+var c21Examples []c21Example
+
+// TestVerifC21Examples runs snapd on the worked examples: a plain regression
+// engine, so that a breakage visible on them is reported as a violation.
+func TestVerifC21Examples(t *testing.T) {
+	c21Init()
+	e := verifkit.NewEnum(t, "C21", "examples")
+	defer e.Done()
+	if raw, ok := e.Replaying(); ok {
+		var c c21Case
+		if err := json.Unmarshal(raw, &c); err != nil {
+			t.Fatalf("cannot decode replay case: %v", err)
+		}
+		if _, err := c21RunModel(c); err != nil {
+			e.Fail(c, "%v", err)
+		}
+		return
+	}
+	for _, ex := range c21Examples {
+		o, err := c21RunModel(ex.Case)
+		if err != nil {
+			e.Fail(ex.Case, "worked example %q: %v", ex.Name, err)
+		}
+		e.Case("example "+ex.Name, o.NonTrivial, o.Labels...)
+	}
+	e.Exhaustive(true)
+	e.Extra("examples", len(c21Examples))
+}
+
 func c21SelfTest() {
 	strAttr := func(k, v string) []c21KV { return []c21KV{{k, c21Val{K: "s", S: v}}} }
 	mk := func(plugAttrs, slotAttrs []c21KV) c21Case {
@@ -1051,10 +1087,7 @@ func c21SelfTest() {
 		if ref.Conn.Allowed != conn {
 			panic(fmt.Sprintf("HARNESS: reference evaluator fails worked example %q", what))
 		}
-		got := c21Evaluate(c)
-		if got.Conn != conn {
-			panic(fmt.Sprintf("HARNESS: worked example %q is not reproduced by snapd: %q", what, got.Errs[0]))
-		}
+		c21Examples = append(c21Examples, c21Example{what, c21Clone(c), conn})
 	}
 	// TestBaselineDefaultIsAllow
 	expect("no rule", mk(nil, nil), true)
